@@ -536,6 +536,9 @@ def r20_7(prog, rep, rid="R20.7"):
         rep.broken_("rule=%s expected >=2 loop exits (at least one per unit), found %d" % (rid, n))
 
 
+_TIER = "quick"
+
+
 def r20_8(prog, rep, rid="R20.8"):
     """What every caller takes the two binary searches for: BinaryFirst() answers the index in front of the first element that is not
     smaller than the value, BinaryLast() the index behind the last element that is not greater — over a run of equal elements the two
@@ -563,10 +566,10 @@ def r20_8(prog, rep, rid="R20.8"):
                 return None
             bad = []
             cases = 0
-            for ln in range(1, 6):
-                for arr in itertools.combinations_with_replacement((1, 2, 3), ln):
+            for ln in range(1, 8 if _TIER == "thorough" else 6):
+                for arr in itertools.combinations_with_replacement((1, 2, 3, 4) if _TIER == "thorough" else (1, 2, 3), ln):
                     for lo, hi in ((0, ln),) + (((1, ln - 1),) if ln >= 3 else ()):
-                        for v in (0, 1, 2, 3, 4):
+                        for v in ((0, 1, 2, 3, 4, 5) if _TIER == "thorough" else (0, 1, 2, 3, 4)):
                             init = {"%s[%d]" % (ap, k_): x_ for k_, x_ in enumerate(arr)}
                             init.update({vp: v, rp + ".start": lo, rp + ".end": hi})
                             outs = []
@@ -596,6 +599,8 @@ def r20_8(prog, rep, rid="R20.8"):
 
 
 def run(prog, rep, tier, snap):
+    global _TIER
+    _TIER = tier
     rep.rule("R20.1", "comparator is a strict order applied symmetrically", 5)
     rep.call(r20_1, prog, rep)
     rep.rule("R20.2", "template bindings and entry points", 6)
